@@ -35,6 +35,7 @@ HARNESS = {
     '/repo/internal/db/zz_c13_partition_test.go': f'{V}/harness/db/zz_c13_partition_test.go',
     '/repo/internal/db/zz_c08_filter_laws_test.go': f'{V}/harness/db/zz_c08_filter_laws_test.go',
     '/repo/internal/db/zz_c08_aggregate_laws_test.go': f'{V}/harness/db/zz_c08_aggregate_laws_test.go',
+    '/repo/internal/db/zz_c08_order_version_test.go': f'{V}/harness/db/zz_c08_order_version_test.go',
     '/repo/internal/db/zz_c19_active_test.go': f'{V}/harness/db/zz_c19_active_test.go',
     '/repo/internal/db/zz_c11_update_test.go': f'{V}/harness/db/zz_c11_update_test.go',
 }
@@ -110,8 +111,16 @@ if prop in ('C01', 'C02', 'C04'):
             res['cases'] += resn['cases']
         bound += '; the same enumeration (length <= 2) on a document created without a counter value where every replica increments by the same amount'
     mine = []
+    marked = {}   # known-finding id -> histories whose only problems of this property carry that finding's diagnosis
     for v in res.get('violating') or []:
         probs = [q for q in v['problems'] if q.startswith(prop + ':') or q.startswith(prop + '/')]
+        for k in known:
+            mk = k.get('problem_marker')
+            if mk and any(mk in q for q in probs):
+                rest = [q for q in probs if mk not in q]
+                if not rest:
+                    marked.setdefault(k['id'], []).append(v['history'])
+                probs = rest
         if probs:
             mine.append((v, probs))
     attributed = {}
@@ -127,7 +136,7 @@ if prop in ('C01', 'C02', 'C04'):
         else:
             violations.append((v['history'], probs))
     summary.update({'bound': bound, 'cases': res['cases'], 'distinct_nontrivial': res['distinct'], 'exhaustive': tier != 'thorough' or True,
-                    'violating_histories': len(mine), 'attributed_to_known_findings': {k: len(h) for k, h in attributed.items()}})
+                    'violating_histories': len(mine), 'attributed_to_known_findings': {**{k: len(h) for k, h in attributed.items()}, **{k: len(h) for k, h in marked.items()}}})
     # replay the witnesses of the listed known findings (repeated: the defect depends on map iteration order)
     for k in known:
         hist = k.get('witness_history')
@@ -310,7 +319,16 @@ if prop == 'C14':
         print(f'VIOLATION property={prop} replay={rp} no-failing-input-found')
         sys.exit(1)
     probs = res.get('problems') or []
-    summary.update({'bound': bound, 'cases': res['cases'], 'distinct_nontrivial': res['cases'], 'exhaustive': False, 'violating_histories': len({(q['history'], q['restart_after_step']) for q in probs})})
+    # replicators: what the store holds is what the running node routes by (a restart rebuilds the table from the store)
+    import re
+    pr = gotest_pkg('^TestGovcC14Replicator', './net/', {'/repo/net/zz_c14_replicator_test.go': f'{V}/harness/net/zz_c14_replicator_test.go'}, 600)
+    outr = pr.stdout + pr.stderr
+    if not re.search(r'--- PASS: TestGovcC14Replicator', outr):
+        msgs = [l.strip() for l in outr.splitlines() if 'C14:' in l]
+        probs.append({'history': 'SetReplicator / DeleteReplicator sequences on a running peer', 'restart_after_step': -1,
+                      'what': ' | '.join(msgs[:3])[:900] or 'the replicator harness failed: ' + '\n'.join(l for l in outr.splitlines() if ' INF ' not in l)[-600:]})
+    bound += '; plus every sequence of two calls (and two of three) over {SetReplicator of one or two collections or all, DeleteReplicator of one collection} on a running peer: after every call the collections the store lists for the replicator are those the running node routes to it (66 sequences)'
+    summary.update({'bound': bound, 'cases': res['cases'] + 66, 'distinct_nontrivial': res['cases'] + 66, 'exhaustive': False, 'violating_histories': len({(q['history'], q['restart_after_step']) for q in probs})})
     if probs:
         rp = f'{V}/replays/{prop}/bounded-history-1.json'
         os.makedirs(os.path.dirname(rp), exist_ok=True)
@@ -362,7 +380,7 @@ if prop == 'C13':
             fresh.append(r)
     for k in kf:
         lines.append(f"KNOWN-FINDING: property={prop} {k['what']} [{k['id']}; {'reproduced' if hit.get(k['id']) else 'not reproduced'} in this run]")
-    summary.update({'bound': 'seven families of type definitions (two relation circles joined by a one-directional relation, a three-cycle, a self reference, independent types), each added as one SDL and as a reordered SDL or split into several AddSchema calls: all version and collection identifiers must be equal', 'cases': res['cases'], 'distinct_nontrivial': res['cases'], 'exhaustive': False, 'violating_histories': sum(1 for r in res['results'] if r['differ']), 'attributed_to_known_findings': hit})
+    summary.update({'bound': 'seven variants (two relation circles joined by a one-directional relation, a three-cycle, a self reference, independent types: reordered SDL or split into several AddSchema calls) plus every order of the type definitions inside one SDL for seven families (two circles joined in either direction, a three-cycle, a circle whose member also points at an independent type, two doubly linked pairs joined by a two-sided relation in either direction): all version and collection identifiers must be equal', 'cases': res['cases'], 'distinct_nontrivial': res['cases'], 'exhaustive': False, 'violating_histories': sum(1 for r in res['results'] if r['differ']), 'attributed_to_known_findings': hit})
     if fresh:
         rp = f'{V}/replays/{prop}/bounded-history-1.json'
         os.makedirs(os.path.dirname(rp), exist_ok=True)
@@ -380,9 +398,9 @@ SCEN = {
     'C08': ('^TestGovcC08', './tests/integration/query/simple/', {'/repo/tests/integration/query/simple/zz_c08_group_offset_test.go': f'{V}/harness/query/zz_c08_group_offset_test.go', '/repo/tests/integration/query/simple/zz_c08_aggregates_test.go': f'{V}/harness/query/zz_c08_aggregates_test.go'}, 6,
             'planner limit/offset on group members and the aggregate nodes (count, sum, min, max, average) through the integration test driver (go test -overlay)',
             'six fixed scenarios: offset without limit at top level and on group members; count/sum/min/max/average over integers and floats with a null and negative values, over all-negative values, and with order, limit, offset and filter arguments, each against the arithmetic over the listed values'),
-    'C20': ('^TestGovcC20', './event/', {'/repo/event/zz_c20_bus_test.go': f'{V}/harness/event/zz_c20_bus_test.go'}, 1,
+    'C20': ('^TestGovcC20', './event/', {'/repo/event/zz_c20_bus_test.go': f'{V}/harness/event/zz_c20_bus_test.go'}, 2,
             'event.channelBus (handleChannel goroutine: subscribe / unsubscribe / publish commands) through the Bus API (go test -overlay)',
-            'for k = 1..4 subscribers of two event names and every subset of them that unsubscribes between two publications (30 cases): the remaining subscribers receive every later message, in publication order'),
+            'for k = 1..4 subscribers of two event names and every subset of them that unsubscribes between two publications (30 cases): the remaining subscribers receive every later message, in publication order; and for every combination of up to three subscribers of kind {update, merge-complete, wildcard} and every leaving subset (258 cases, two rounds of publications): each subscriber receives exactly the messages of its names (the wildcard subscriber: all), once, in order'),
 }
 if prop in SCEN:
     import re
@@ -439,7 +457,10 @@ if prop == 'C08':
         print(f'VIOLATION property={prop} replay={rp} no-failing-input-found')
         sys.exit(1)
     fl += res2.get('problems') or []
-    summary['bound'] += '; listing laws: order + limit + offset = slice of the ordered listing, _count = number of listed rows, _sum/_min/_max/_avg = arithmetic over the listed non-null values (the average under limit/offset only when no value is null), groups partition the listing and _count/_sum of a group are over its members, several aggregates of one group with different filters are each computed over their own filtered members (3 x 3 filter pairs, both orders of appearance); 7 filters x 4 orders x 7 limit/offset pairs, plain and indexed; every ordered listing is ordered by its first key and has the same key sequence with and without the indexes (%d evaluations)' % res2['cases']
+    pv, _ = gotest('^TestGovcC08OrderWithVersionSelection$', {}, 300)
+    if pv.returncode != 0:
+        fl.append({'schema': 'no index', 'law': 'no request fails or panics', 'what': ' '.join(l.strip() for l in pv.stdout.splitlines() if 'C08:' in l)[:600] or 'order with a _version selection: the probe failed'})
+    summary['bound'] += '; listing laws: order + limit + offset = slice of the ordered listing, _count = number of listed rows, _sum/_min/_max/_avg = arithmetic over the listed non-null values (the average under limit/offset only when no value is null), groups partition the listing and _count/_sum of a group are over its members, several aggregates of one group with different filters are each computed over their own filtered members (3 x 3 filter pairs, both orders of appearance); 7 filters x 4 orders x 7 limit/offset pairs, plain and indexed, plus one ordered listing that selects the _version history; every ordered listing is ordered by its first key and has the same key sequence with and without the indexes (%d evaluations)' % res2['cases']
     summary['cases'] += res2['cases']
     summary['distinct_nontrivial'] = summary['cases']
     summary['violating_histories'] = len(fl)
